@@ -27,6 +27,7 @@ func c03(c *Ctx) {
 	c03R3(c)
 	c03R4(c)
 	c03R5(c)
+	c03R6(c)
 }
 
 // R1 ---------------------------------------------------------------------------------------------
@@ -469,5 +470,38 @@ func c03R5(c *Ctx) {
 			}
 		}
 		c.R.Ob(rule, "rollback:"+fld, ok, c.Pos(save), fname(f), "after a failed save the in-memory "+fld+" must again equal the file's (pre-update) value, otherwise the same-HRS branch hands out a signature that was never made durable: "+detail)
+	}
+}
+
+
+// c03R6: the signer file is written only with state this process produced.
+func c03R6(c *Ctx) {
+	rule := c.R.Rule("R6", "no signature without a file, no stale write-back: save() returns a non-nil error when filePath is empty (a signer that cannot persist its watermark must not sign); LoadOrGenPrivValidator saves only a freshly generated validator — a Save() of a validator that was just loaded writes back the record read earlier, possibly over a newer one written by the running node", 2)
+	if f := c.Anchor(rule, pvType+".save"); f != nil {
+		n := 0
+		for _, r := range f.Returns() {
+			if !f.HasGuard(r, eqs(`(a0.filePath == "")`)) {
+				continue
+			}
+			n++
+			v := f.ReturnValues(r)[0]
+			c.R.Ob(rule, "save:empty-path-is-an-error", !cfgx.IsNilConst(v), c.Pos(r), fname(f), "save() with no file path reports success: signBytesHRS then releases signatures that no durable watermark protects")
+		}
+		if n == 0 {
+			c.R.Undecided(rule, "save:empty-path", c.P.Pos(f.F.Pos()), fname(f), "no return under filePath == \"\"")
+		}
+	}
+	if f := c.Anchor(rule, "gemmill/types.LoadOrGenPrivValidator"); f != nil {
+		var load ssa.Instruction
+		for _, ci := range f.CallsTo(cfgx.Named("gemmill/types.LoadPrivValidator")) {
+			load = ci
+		}
+		bad := ""
+		for _, ci := range f.CallsTo(cfgx.Named(pvType+".Save", pvType+".save")) {
+			if load != nil && f.Reaches(load, ci.(ssa.Instruction)) {
+				bad = c.Pos(ci)
+			}
+		}
+		c.R.Ob(rule, "LoadOrGen:no-Save-after-Load", load != nil && bad == "", c.P.Pos(f.F.Pos()), fname(f), "Save() at "+bad+" is reachable after LoadPrivValidator: the loaded (possibly already outdated) record is written back")
 	}
 }
